@@ -130,6 +130,7 @@ type Trace struct {
 	Sends      []SendRecord
 	Restarts   []Restart
 	Steps      int
+	Panics     int // loop bodies that ended in a panic (the process would have died)
 	Broadcasts int // BroadcastTxCommit calls that passed CheckTx
 	// LastPureDKG is, per eon, the last committed content of the puredkg row (gob of puredkg.PureDKG). The row is
 	// deleted when the key generation is finalized, in the transaction of the block whose height shifts the phase
